@@ -155,8 +155,9 @@ theorem inv_run (acts : List Act) (s s' : St) (h : PInv s) (hr : runActs ⟨fals
       exact ih s1 (inv_step s s1 a h hs) hr
     · cases hr
 
-/-- what the extractor found in `listener.handle` / `Server.handle`: is the buffer returned to the pool on the hijack path? -/
+/-- what the extractor found in `listener.handle` / `Server.handle`: is the buffer returned to the pool on the hijack path?
+The `Put` must be guarded by exactly `!errors.Is(err, errHijacked)`: a weaker guard returns the buffer of some hijacked connections. -/
 def factsFromSource : Facts :=
-  ⟨Gen.fact_listener_handle_bare_defer_put || (Gen.fact_listener_handle_any_put && !Gen.fact_listener_handle_put_guarded_by_hijack)⟩
+  ⟨Gen.fact_listener_handle_bare_defer_put || (Gen.fact_listener_handle_any_put && !Gen.fact_listener_handle_put_guard_is_exactly_not_hijacked)⟩
 
 end L4.Pool
